@@ -142,6 +142,24 @@ pub fn run_c12(out: &mut Out, _rng: &mut Rng, tier: Tier) -> String {
         }
     }
     huge_decisions(out);
+    for &(nr, nc) in &LARGE[..3] {
+        for ao in ORDERS {
+            for bo in ORDERS {
+                out.case(&format!("ew-large a=b={nr}x{nc} orders={}{}", ord_ch(ao), ord_ch(bo)));
+                out.nontrivial();
+                let mut w = World::<Tok>::new(out);
+                for (variant, name) in [("ref", "gen"), ("consume", "add"), ("assign", "sub"), ("consume", "gen"), ("assign", "gen")] {
+                    w.new_matrix(out, 0, ao, nr, nc, 100);
+                    w.new_matrix(out, 1, bo, nr, nc, 500000);
+                    w.ew(out, 2, 0, 1, variant, name);
+                }
+                w.new_matrix(out, 0, ao, nr, nc, 100);
+                w.new_matrix(out, 1, bo, nr, nc, 500000);
+                w.ewop(out, 2, 0, 1, '-', "bb");
+                for r in 0..3 { if w.regs[r].is_some() { w.drop_reg(out, r); } }
+            }
+        }
+    }
     let s = snapshot();
     if s.double_drops > 0 || s.live != 0 {
         out.oracle_fail(&format!("ledger at the end of the run: {} tokens still live, {} double drops", s.live, s.double_drops));
